@@ -302,7 +302,10 @@ Section Callers.
   Definition sensor_get_value (T d : Z) ck b : cmd_value * time :=
     let r := safe_cmd T d ck b in
     (match r_out r with
-     | Ok t => match parse t with Some f => CvFloat f | None => CvErr end
+     | Ok t => match parse t with
+               | Some f => if is_finite f then CvFloat f else CvErr   (* NaN / +-Inf rejected (D9 repair) *)
+               | None => CvErr
+               end
      | Err _ => CvErr
      | Crash => CvCrash
      end, r_time r).
